@@ -1610,18 +1610,19 @@ where
         self.bump_generation();
     }
 
-    /// Ensures this TDS's generation counter is strictly greater than `floor`.
+    /// Makes this TDS continue the generation counter of the TDS it is about to replace.
     ///
     /// Used when a whole TDS is swapped in for another one (initial-simplex bootstrap, heuristic
-    /// rebuild): the replacement starts its own counter near zero, so without this a
-    /// generation-keyed view created on the *old* TDS (e.g. a `ConvexHull`) could see an equal
-    /// generation on the new one and consider itself still valid.
+    /// rebuild). The replacement was built with a counter of its own; from here on it shares the
+    /// counter of `replaced` (as every clone of `replaced` does) and bumps it once. A
+    /// generation-keyed view such as a `ConvexHull` compares numbers only, so all TDS values that
+    /// can stand in for each other must count on one monotone counter: with two counters an older
+    /// clone that keeps being edited could reach the very number recorded in a view of the
+    /// replacement, and the view would answer for the wrong triangulation.
     #[inline]
-    pub(crate) fn advance_generation_past(&self, floor: u64) {
-        if self.generation.load(Ordering::Relaxed) <= floor {
-            self.generation
-                .store(floor.saturating_add(1), Ordering::Relaxed);
-        }
+    pub(crate) fn continue_generation_of(&mut self, replaced: &Self) {
+        self.generation = Arc::clone(&replaced.generation);
+        self.bump_generation();
     }
 
     // =========================================================================
